@@ -10,7 +10,7 @@ import os
 import plistlib
 import tempfile
 
-from vlib import core, wire, gen, logs
+from vlib import core, wire, gen, logs, domain
 
 LEVEL = 'exploration'
 RULE = ('dumps = v2/v3 files whose records draw event ids from a small pool of classes/subclasses and thread ids from a small '
@@ -190,6 +190,13 @@ def check_logs(res, f, rng):
     for _ in range(4):
         tid = rng.choice((None, 0, 1, 2, 77, 4242))
         proc = rng.choice((None, 'launchd', 'Safari', '123', '456', '1', '0', 'nosuch', ''))
+        if f['logs'] and rng.random() < 0.4:
+            # the filter is exact: near misses of a record's own process (its pid spelled another way - leading zeros, a
+            # sign, blanks, another base or script -, its name in another case, with a blank, cut short) select nothing
+            # unless another record really carries that name
+            raw = rng.choice(f['logs'])
+            proc = rng.choice(domain.near_miss_spellings(raw.get('pid', 0), inv[raw['p']] if 'p' in raw else ''))
+            res.count('log_filters_with_near_miss_spellings')
         p = PyKdebugParser()
         p.filter_tid = tid
         p.filter_process = proc
